@@ -101,6 +101,105 @@ def rm_check_against_oracle(map_str, expected):
     return wf, got == exp
 
 
+
+def class_expr_stream(tier, seed, builtins, log):
+    """C11 on the macro's class evaluator (`regex_to_range_map`, `add_re` on sets): random class expressions over a DENSE small
+    alphabet (so that set elements nest, overlap, repeat and touch), each compiled as `E = 0, _ = 1` and run on every boundary
+    code point +-1 of the set the expression denotes; oracle = brute-force interval semantics (lexast.class_of via reflex)."""
+    import check
+    from lexast import class_of, CHAR_MAX
+    rng = random.Random(seed * 31 + 1111)
+    letters = [ord(c) for c in 'abcdefgh']
+    far = [0, 1, 0x7F, 0x80, 0xD7FF, 0xE000, 0x10FFFE, 0x10FFFF]
+
+    def pt():
+        return rng.choice(far) if rng.random() < 0.06 else rng.choice(letters)
+
+    def dense_set():
+        items = []
+        for _ in range(rng.randint(1, 5)):
+            if rng.random() < 0.45:
+                items.append(('c', pt()))
+            else:
+                a, b = sorted([pt(), pt()])
+                items.append(('r', a, b))
+        return ('set', items)
+
+    def leaf():
+        k = rng.random()
+        if k < 0.7:
+            return dense_set()
+        if k < 0.82:
+            return ('chr', pt())
+        if k < 0.9:
+            return ('any',)
+        return ('bi', rng.choice(['ascii_lowercase', 'ascii_hexdigit', 'ascii_alphabetic', 'ascii_punctuation', 'lowercase']))
+
+    def expr(depth):
+        if depth <= 0 or rng.random() < 0.25:
+            return leaf()
+        if rng.random() < 0.7:
+            return ('diff', expr(depth - 1), expr(depth - 1))
+        return ('alt', expr(depth - 1), expr(depth - 1))
+
+    n = 60 if tier == 'quick' else 700
+    progs, cases, expected = [], {}, {}
+    tries = 0
+    while len(progs) < n and tries < n * 20:
+        tries += 1
+        e = expr(rng.randint(1, 3))
+        if rng.random() < 0.75 and e[0] != 'diff':
+            e = ('diff', e, leaf())     # force the evaluator path (`#`), not the bracket-set path of add_re
+        try:
+            ivs = class_of(e, {}, builtins)
+        except Exception:  # noqa
+            continue
+        if not ivs:
+            continue                    # empty class: excluded by well-formedness
+        name = 'Cls%d' % len(progs)
+        d = {'name': name, 'items': [('errortype',), ('rule', 'simple', e, None), ('rule', 'simple', ('any',), None)]}
+        if not gen_defs.well_formed(d, builtins):
+            continue
+        pts = set(letters + [ord('i'), ord('`')])
+        for (a, b) in ivs[:40]:
+            pts.update([a - 1, a, a + 1, b - 1, b, b + 1])
+        w = sorted(c for c in pts if 0 <= c <= CHAR_MAX and not (0xD800 <= c <= 0xDFFF))
+        progs.append(d)
+        cases[name] = [{'prog': name, 'id': 'w0', 'ctor': 0, 'ncalls': len(w) + 2, 'input': w, 'script': [], 'clones': []}]
+        expected[name] = ivs
+    status, traces, dumps = check.build_and_run(progs, cases)
+    violations, n_ok, n_pts = [], 0, 0
+    for d in progs:
+        nm = d['name']
+        if status[nm]['build'] != 'ok':
+            if len(violations) < 6:
+                violations.append({'definition': corpus.lexer_text(d), 'def_json': pipeline.def_to_json(d), 'input': None, 'script': None, 'site': 'expansion',
+                                   'what': 'class expression does not expand/compile: ' + status[nm].get('detail', '')[:300]})
+            continue
+        c = cases[nm][0]
+        t = traces.get((nm, 'w0'))
+        if t is None:
+            continue
+        ref = reflex.RefLexer(d, builtins)
+        rl = ref.run(c['input'], [], c['ncalls'], True, t['widths'])
+        pa = pipeline.proj('C01', [pipeline.parse_line(l) for l in t['lines']])
+        pb = pipeline.proj('C01', [pipeline.parse_line(l) for l in rl])
+        n_pts += len(c['input'])
+        if pa == pb:
+            n_ok += 1
+        elif len(violations) < 6:
+            # shrink to the first misclassified code point
+            bad = None
+            for i, (x, y) in enumerate(zip(pa, pb)):
+                if x != y:
+                    bad = c['input'][i] if i < len(c['input']) else None
+                    break
+            violations.append({'definition': corpus.lexer_text(d), 'def_json': pipeline.def_to_json(d), 'input': [bad] if bad is not None else c['input'], 'script': [],
+                               'what': 'class expression accepts a different set than its set semantics (code point %s misclassified); expected set %s' % (bad, expected[nm][:8]),
+                               'actual': pa[:8], 'expected': pb[:8]})
+    return violations, {'class_expression_programs': len(progs), 'class_expressions_exact': n_ok, 'class_boundary_points': n_pts}
+
+
 def check_C11(tier, seed, res, builtins, log):
     rng = random.Random(seed + 11)
     universe = 6 if tier == 'quick' else 7
@@ -187,7 +286,11 @@ def check_C11(tier, seed, res, builtins, log):
                                    'what': 'correspondence no longer checks: RangeMap model and implementation differ on `%s`: impl %s model %s (both satisfy the set semantics)' % (lines[i], il, ml)})
     cov = {'evaluations': len(seqs), 'distinct_nontrivial': len(distinct), 'exhaustive_small_universe_sequences': n_exh,
            'rangemap_model_disagreements': n_dis, 'samples': [{'ops': lines[len(lines) // 2], 'result': impl[len(lines) // 2]}]}
-    # single-class lexers at every boundary (from the shared corpus: ShCls*, RegD5*) are covered by the trace slice
+    # the macro's own class evaluator on random class expressions, every boundary code point
+    v2, cov2 = class_expr_stream(tier, seed, builtins, log)
+    violations += v2
+    cov.update(cov2)
+    cov['evaluations'] += cov2['class_boundary_points']
     return {'violations': violations, 'unresolved': unresolved, 'coverage': cov,
             'assumptions': ['RangeMap driven through the in-crate test server (feature verif_hooks) of /repo']}
 
